@@ -8,24 +8,12 @@ use crate::util::*;
 use flipdot_core::{Address, Page, PageFlipStyle, SignType, State};
 use flipdot_testing::VirtualSign;
 
-pub const SIGN_TYPES: [SignType; 11] = [
-    SignType::Max3000Front112x16,
-    SignType::Max3000Front98x16,
-    SignType::Max3000Side90x7,
-    SignType::Max3000Rear30x10,
-    SignType::Max3000Rear23x10,
-    SignType::Max3000Dash30x7,
-    SignType::HorizonFront160x16,
-    SignType::HorizonFront140x16,
-    SignType::HorizonSide96x8,
-    SignType::HorizonRear48x16,
-    SignType::HorizonDash40x12,
-];
+pub use crate::gen_types::ALL_TYPES as SIGN_TYPES;
 
 pub fn any_sign_type_opt() -> Option<SignType> {
     let i: usize = kani::any();
-    kani::assume(i <= 11);
-    if i == 11 {
+    kani::assume(i <= SIGN_TYPES.len());
+    if i == SIGN_TYPES.len() {
         None
     } else {
         Some(SIGN_TYPES[i])
